@@ -40,7 +40,7 @@ TABLE = {
     "FastIcaParams": {"tol": ">=0"},  # "tolerance should be positive"
     "DiffusionMapParams": {"steps": ">=1", "embedding_size": ">=1"},  # StepsZero / EmbeddingTooSmall
     "RandomProjectionParams": {"params.Dimension.target_dim": ">=1", "params.Epsilon.eps": "(0,1)"},  # error.rs strings
-    "PlattParams": {"maxiter": ">=1", "minstep": ">=0", "sigma": ">=0"},  # PlattError variants
+    "PlattParams": {"maxiter": ">=1", "minstep": ">0", "sigma": ">=0"},  # PlattError variants
     "HierarchicalCluster": {"stopping.NumClusters.0": ">=1", "stopping.Distance.0": ">=0"},
     "CountVectorizerParams": {"n_gram_range.0": ">=1", "n_gram_range.1": ">=1", "document_frequency.0": "[0,1]", "document_frequency.1": "[0,1]"},  # setter doc: "must lie in 0..=1"
 }
